@@ -45,7 +45,13 @@ RULE = ("Documents are rendered from abstract trees; the oracle is the tree that
         "whitespace-only / comment-only lines (1-2 at a time) at every position before, between and after the tag "
         "lines (thorough: pairs of positions), comparing every Tag name AND Tag.line with the line it is written on; "
         "the same fillers at every position of feature / scenario / rule documents whose taggable elements all carry "
-        "2-3 tags (one or two tag lines, with and without trailing comment). (6) ModelDescriptor.describe_table / describe_docstring re-parsed. (7) E2: breadth-first search over "
+        "2-3 tags (one or two tag lines, with and without trailing comment). (5b) doc-string layouts: closing "
+        "delimiter at the column of the opening one / 1-2 deeper / 1-2 shallower / column 0 x both quote styles x 6 "
+        "contents (plain, more-indented lines, empty, leading/trailing blank lines, the other quote style, format "
+        "metacharacters) x doc-string on the last step / followed by a step / by a step with a table / by the next "
+        "tagged scenario x 7 contexts (scenario, background, rule background, rule scenario, outline before Examples, "
+        "parse_steps, parse_scenario) x indent styles. "
+        "(6) ModelDescriptor.describe_table / describe_docstring re-parsed. (7) E2: breadth-first search over "
         "line histories of a 20-kind well-formed-line alphabet on the real Parser (canonical abstraction of C05) for "
         "parse_feature and parse_steps, plus all sequences <= 3 (quick) / <= 4 (thorough) lines: whenever the real "
         "parser accepts a history that the reference grammar also places, the model must equal the reference "
@@ -579,6 +585,76 @@ def entry_cases(thorough):
                         yield ("taglayout", entry, ((pos, fs),), taglines, tagcomment)
 
 
+# ================================================================ (5b) doc-string delimiter layouts
+DQ, SQ = u'"' * 3, u"'" * 3
+DOC_CLOSE = (0, 1, 2, -1, -2, "col0")
+DOC_FOLLOW = ("last", "step", "step+table", "scenario")
+DOC_CONTEXTS = ("scenario", "background", "rule-background", "rule-scenario", "outline", "parse_steps", "parse_scenario")
+DOC_TEXTS = ((u"plain line",), (u"first", u"  indented more", u"", u"    much more", u"last"), (),
+             (u"", u"", u"after two blank lines", u""), (u"OTHERQUOTE", u"  OTHERQUOTE indented", u"| row | like |"),
+             (u"{name} {} %s", u"@tag # comment"))
+
+
+def docclose_doc(context, quote, close, text_idx, follow):
+    """-> (entry, abstract document or rendered text) | None: a doc-string whose closing delimiter stands at column
+    `close` relative to the opening one, as argument of the last step / followed by a step / by a step with a
+    table / by the next scenario"""
+    other = SQ if quote == DQ else DQ
+    content = [l.replace(u"OTHERQUOTE", other) for l in DOC_TEXTS[text_idx]]
+    S = gr.STEP_NAMES
+    steps = [("given", S[0], None), ("when", S[1], ("text", quote, content, close))]
+    if follow == "step":
+        steps.append(("then", S[2], None))
+    elif follow == "step+table":
+        steps.append(("and", S[2], ("table", [u"h1", u"h2"], [[u"a", u""]])))
+    nxt = []
+    if follow == "scenario":
+        nxt = [{"k": "scenario", "tags": [u"t1"], "name": u"next", "desc": [], "steps": [("given", S[0], None)]}]
+    scen = {"k": "scenario", "tags": [], "name": u"n1", "desc": [], "steps": steps}
+    if context == "parse_steps":
+        return ("steps", gr.render_steps(steps)) if follow != "scenario" else None
+    if context == "parse_scenario":
+        return ("scenario", gr.render_scenario(scen)) if follow != "scenario" else None
+    doc = {"lang": "en", "tags": [], "name": u"n1", "desc": [], "bg": None, "items": [scen] + nxt}
+    plain = {"k": "scenario", "tags": [], "name": u"n1", "desc": [], "steps": [("then", S[0], None)]}
+    if context == "background":
+        doc["bg"] = {"name": u"", "desc": [], "steps": steps}
+        doc["items"] = [plain] + nxt
+    elif context == "rule-background":
+        doc["items"] = [{"k": "rule", "tags": [], "name": u"R", "desc": [],
+                         "bg": {"name": u"", "desc": [], "steps": steps}, "items": [plain] + nxt}]
+    elif context == "rule-scenario":
+        doc["items"] = [{"k": "rule", "tags": [], "name": u"R", "desc": [], "bg": None, "items": [scen] + nxt}]
+    elif context == "outline":
+        doc["items"] = [{"k": "outline", "tags": [], "name": u"O", "desc": [], "steps": steps,
+                         "examples": [{"tags": [], "name": u"", "table": ([u"x"], [[u"1"]])}]}] + nxt
+    return "feature", doc
+
+
+def check_docclose(case):
+    context, quote, close, text_idx, follow, indent = case
+    made = docclose_doc(context, quote, close, text_idx, follow)
+    if made is None or (made[0] != "feature" and indent != "2"):
+        return {"n": 0, "out": "not-applicable"}
+    entry, r = made
+    if entry == "feature":
+        r = gr.render(r, {"indent": indent})
+    got = _parse(entry, r["text"])
+    v = compare("model", entry, r, got, {})
+    v = [(d, "[doc-string closing delimiter at %r, %s, followed by %s] %s" % (close, context, follow, m)) for d, m in v]
+    return {"v": v, "nt": digest(r["text"]), "out": ("docclose", context, close, follow), "dg": got}
+
+
+def docclose_cases(thorough):
+    for context in DOC_CONTEXTS:
+        for follow in DOC_FOLLOW:
+            for quote in (DQ, SQ):
+                for close in DOC_CLOSE:
+                    for ti in range(len(DOC_TEXTS)):
+                        for indent in (("2", "0", "4", "tab") if (thorough or ti < 2) else ("2",)):
+                            yield (context, quote, close, ti, follow, indent)
+
+
 # ================================================================ (6) ModelDescriptor round trip
 def check_roundtrip(case):
     kind, idx, indentation = case
@@ -957,6 +1033,7 @@ def run(ctx):
     ctx.sweep(check_alias, alias_cases(thorough), chunk=32, name="languages x aliases")
     # (5)
     ctx.sweep(check_entry, entry_cases(thorough), chunk=32, name="parse_steps/scenario/rule/tags")
+    ctx.sweep(check_docclose, docclose_cases(thorough), chunk=64, name="doc-string delimiter layouts")
     # (6)
     ctx.sweep(check_roundtrip, roundtrip_cases(), chunk=8, name="ModelDescriptor round trip")
     # (7)
